@@ -309,6 +309,44 @@ def run(chk):
     from rules import restart
     nrs = restart.restart_rule(chk, db, "C01-D10.restart")
     chk.floor("C01-D10.restart", nrs, 6, "restart-loop obligations of the wavelet solver (instantiations)")
+    # ------------------------------------------------------------------ D11 every loaded ancestor is reached by the hierarchical transform
+    chk.rule("C01-D11.ancestors", "the surplus / weight transforms of the Local Polynomial grid subtract the contribution of every loaded ancestor of a point: either the ancestors are enumerated from "
+                                  "the multi-index itself, or - when they are found by walking the DAG of the loaded points, where a missing point ends the walk - every route that adds a point "
+                                  "requires all of its parents to be present.  Decided from the shape of the walk (reads of the parent table that skip -1) and of the admission predicate "
+                                  "(a flag set by any single relative is existential)")
+    GLP = "TasGrid::GridLocalPolynomial"
+    walks = []
+    for nm in ("updateSurpluses", "applyTransformationTransposed"):
+        for g in db.fns(GLP + "::" + nm):
+            if not g.d.get("targs"):
+                continue
+            dag = [p_ for p_ in g.params() if p_["name"] == "dagUp"] + [d_ for d_ in g.locals().values() if d_.get("name") == "dagUp"]
+            skips = [q for q in g.walk() if q.get("k") == "BinaryOperator" and q.get("op") == "==" and txt(strip(q["c"][1])) == "-1" and "branch" in txt(strip(q["c"][0]))]
+            if dag and skips:
+                walks.append(g)
+            chk.saw(g)
+    adm = []
+    for g in db.fns(GLP + "::loadConstructedPoint"):
+        if not g.d.get("targs") or len(g.params()) != 2:
+            continue
+        chk.saw(g)
+        flags = [d_ for d_ in g.locals().values() if d_.get("k") == "VarDecl" and (d_.get("t") or "") == "bool"]
+        for c in g.calls():
+            if (callee(c) or "").endswith("::touchAllImmediateRelatives"):
+                lam = [q for a in call_args(c) for q in [strip(a)] + list(walk(a)) if q is not None and q.get("k") == "LambdaExpr"]
+                # the callback only raises a flag: one loaded relative is enough
+                sets_true = any(q.get("k") == "BinaryOperator" and q.get("op") == "=" and txt(strip(q["c"][1])) == "true" and var_of(q["c"][0]) in {f_["did"] for f_ in flags}
+                                for l_ in lam for q in walk(l_))
+                counts = any(q.get("k") in ("UnaryOperator", "CompoundAssignOperator") and q.get("op") in ("++", "+=") for l_ in lam for q in walk(l_))
+                if sets_true and not counts:
+                    adm.append(g)
+    if not walks and not adm:
+        raise AnalysisBroken("C01-D11: neither the DAG walk nor the admission predicate of the Local Polynomial grid was recognised")
+    bad = bool(walks) and bool(adm)
+    chk.ob("C01-D11.ancestors", GLP, "ancestors are found by walking the DAG of the loaded points while a point is admitted as soon as one relative is loaded", not bad,
+           (walks[0].where if walks else adm[0].where),
+           "%d transform instantiation(s) stop at a missing parent; %d admission routine(s) accept a point with a single loaded relative: an ancestor that is reachable only through a missing point is never subtracted"
+           % (len(walks), len(adm)) if bad else "", "index-based enumeration of the ancestors, or admission that requires every parent")
     from rules import complete
     nc9 = complete.complete_rule(chk, db, "C01-D9.complete")
     chk.floor("C01-D9.complete", nc9, 5, "fallback loops in computeDAGup (instantiations)")
